@@ -1,28 +1,30 @@
 """C17 - what is rendered does not depend on what was processed before.
 
 E2 without dedup (no sound full fingerprint of an application exists, so the depth IS the bound).
-Four parts, every case executed on the real clikit code:
+Every case is executed on the real clikit code.
 
 1. histories   one ConsoleApplication (DefaultApplicationConfig, exceptions caught, no exit) over EVERY sequence of
-               command lines up to the depth bound; the judged observation of the last run
+               command lines up to the depth bound; the observation of the last run
                (status, stdout, stderr, handler invocation record, raw tokens after the run) must equal what a
                freshly built application gives for that line.  Three modes: default parsers / all commands share one
                args parser (Config.set_args_parser) / the caller passes the same RawArgs object again.
 2. components  every UI component rendered on every sequence of IO kinds (plain, ANSI, no UTF-8, narrow, verbose,
-               debug, debug without UTF-8) on the SAME object, on one IO object twice, and a second object after a
-               first one; each render must equal the render of a fresh object in a fresh process.
+               debug, debug without UTF-8) on the SAME object, on one IO object twice, and as a second object after
+               another component was rendered; each render must equal the render of a fresh object in a fresh process.
                BlockLayout: a layout used again after a render must lay out new content like a fresh layout.
-3. styles      all construction orders of the four predefined table styles (every ordered subset), plus customising one
-               style before/after the others are built, each scenario in a FRESH `python -c` sub-process (class-level
-               singletons are the subject); a style's table must equal the table of the sub-process in which only that
-               style was ever built.
+3. styles      all construction orders of the four predefined table styles in two schedules, each in a FRESH
+               `python -c` sub-process, plus all ordered subsets and "customise one style before / after the others are
+               built" in forked children of a process that never built a style; a style's table must equal the table of
+               the sub-process in which only that style was ever built.
 
-Isolation: the checking process itself never executes clikit UI/application code; every case runs in a forked child
-(or a sub-process for part 3), so class-level state (snippet cache, border-style singletons) is pristine at the start of
-every case and the recorded case is sufficient to reproduce the failure.
+Engine: a tree walk by fork().  The checking process and its pool workers only import clikit, they never execute
+application or rendering code (guard: _TAINTED).  A job forks a pristine child that builds the object under test; every
+tree edge is one more fork that executes ONE more step on the inherited live state.  So each explored state is the real
+process state (instance state, class-level caches and singletons alike) after exactly the recorded history starting from
+a pristine process, every step is executed once, and the recorded case is sufficient to reproduce a failure.
 
-Signatures: of all violating sequences only the *minimal* ones (no proper subsequence ending in the same element
-violates the same way) are reported; sig = judged element + a summary of what differs.
+Signatures: of all violating sequences only the *minimal* ones (every aspect of the difference already shows on a
+proper subsequence ending in the same element => not minimal) are reported; sig = the aspects that differ.
 
 Not demanded (statement silent / by design):
  * rendering a BlockLayout twice (render() deliberately consumes its elements); only reuse-after-render is judged;
@@ -34,6 +36,7 @@ import itertools
 import json
 import os
 import pickle
+import re
 import subprocess
 import sys
 import traceback
@@ -42,6 +45,7 @@ from mc import common, par, report
 
 PID = "C17"
 _TAINTED = False  # set in any process that executed clikit application / rendering code
+_SINKS = [0]
 
 
 def pre_import():
@@ -49,13 +53,22 @@ def pre_import():
     os.environ["LINES"] = "25"
 
 
+def _preimport():
+    """import (never execute) everything the children need, so that they do not pay for it after every fork"""
+    import clikit.config, clikit.args, clikit.io, clikit.formatter, clikit.ui.components, clikit.ui.help  # noqa
+    import clikit.ui.layout, clikit.ui.style, clikit.ui.alignment, clikit.handler.callback_handler  # noqa
+    import clikit.args.default_args_parser, clikit.io.input_stream, clikit.io.output_stream, clikit.ui.rectangle  # noqa
+    import crashtest.inspector, crashtest.frame_collection, textwrap, tokenize  # noqa
+    from props import _c17_fixtures  # noqa
+
+
 # ------------------------------------------------------------------------------------------------
-# process isolation
+# engine: process isolation and the fork tree walk
 # ------------------------------------------------------------------------------------------------
 def forked(fn, *a):
     """Run fn(*a) in a forked child of a process that never ran clikit code itself; return its result."""
     if _TAINTED:
-        raise RuntimeError("engine error: forking from a process that already executed clikit code")
+        raise RuntimeError("engine error: forking a reference from a process that already executed clikit code")
     r, w = os.pipe()
     pid = os.fork()
     if pid == 0:
@@ -89,8 +102,75 @@ def _taint():
     _TAINTED = True
 
 
+def _emit(fd, rec):
+    os.write(fd, (json.dumps(rec) + "\n").encode())
+
+
+def _walk(state, hist, alphabet, depth, step, fd):
+    """every edge = fork + one step on the inherited live state; the child recurses, the parent stays untouched"""
+    for a in alphabet:
+        h = hist + (a,)
+        pid = os.fork()
+        if pid == 0:
+            code = 0
+            try:
+                rec = step(state, h)
+                if rec is not None:
+                    _emit(fd, rec)
+                if len(h) < depth:
+                    _walk(state, h, alphabet, depth, step, fd)
+            except BaseException:
+                code = 3
+                try:
+                    _emit(fd, {"engine_error": "at %r\n%s" % (h, traceback.format_exc())})
+                except BaseException:
+                    pass
+            finally:
+                os._exit(code)
+        _, st = os.waitpid(pid, 0)
+        if st != 0:
+            raise RuntimeError("engine error below %r (child status %r)" % (h, st))
+
+
+def _tree_job(setup, prefix, alphabet, depth, step, extra=None):
+    """runs in a pristine forked child: build the state, replay `prefix` (judging only its last step), walk below it"""
+    _SINKS[0] += 1
+    path = "/tmp/c17-sink-%d-%d" % (os.getpid(), _SINKS[0])
+    fd = os.open(path, os.O_WRONLY | os.O_CREAT | os.O_APPEND | os.O_TRUNC, 0o600)
+    try:
+        state = setup()
+        for i in range(len(prefix)):
+            rec = step(state, tuple(prefix[:i + 1]))
+            if rec is not None and i == len(prefix) - 1:
+                _emit(fd, rec)
+        if extra is not None:
+            extra(state, fd)
+        if len(prefix) < depth:
+            _walk(state, tuple(prefix), alphabet, depth, step, fd)
+        os.close(fd)
+        with open(path) as f:
+            recs = [json.loads(line) for line in f if line.strip()]
+    finally:
+        try:
+            os.unlink(path)
+        except OSError:
+            pass
+    for r in recs:
+        if "engine_error" in r:
+            raise RuntimeError("engine error in tree walk:\n" + r["engine_error"])
+    return recs
+
+
+def tree_job(setup, prefix, alphabet, depth, step, extra=None):
+    return forked(_tree_job, setup, prefix, alphabet, depth, step, extra)
+
+
+def nodes_below(n, levels):
+    return sum(n ** k for k in range(1, levels + 1))
+
+
 def subsequences_same_last(h):
-    """all proper subsequences of h that keep the last element (shortest first)"""
+    """all proper subsequences of h that keep the last element"""
     body, last = h[:-1], h[-1]
     for k in range(0, len(body)):
         for idx in itertools.combinations(range(len(body)), k):
@@ -98,25 +178,40 @@ def subsequences_same_last(h):
 
 
 def minimal(viol_map):
-    """viol_map: sequence(tuple) -> diff summary.  Keep the sequences none of whose proper subsequences (same last
-    element) violates with the same summary.  Sound because every shorter sequence over the alphabet was enumerated."""
+    """viol_map: sequence(tuple) -> tuple of difference aspects.  A violating sequence is *explained* when every aspect
+    of its difference already shows on some violating proper subsequence with the same last element; the others are
+    minimal.  Well defined because every shorter sequence over the alphabet was enumerated too."""
     out = []
     for h in sorted(viol_map, key=lambda x: (len(x), x)):
-        d = viol_map[h]
-        if any(viol_map.get(g) == d for g in subsequences_same_last(h)):
-            continue
-        out.append(h)
+        seen = set()
+        for g in subsequences_same_last(h):
+            seen.update(viol_map.get(g, ()))
+        if not set(viol_map[h]) <= seen:
+            out.append(h)
     return out
 
 
-def textclass(s):
-    """short stable description of a text: its first non-empty line without SGR codes and digits"""
-    import re
-    s = re.sub("\x1b\\[[0-9;]*m", "", s)
-    for line in s.split("\n"):
-        if line.strip():
-            return re.sub("[0-9]+", "#", line.strip())[:28]
-    return "<empty>"
+_SYMBOLS = {u"→": ">", u"│": "|", u"•": "*"}
+
+
+def textclass(exp, obs):
+    """short stable description of how obs differs from exp: 'utf8-symbols' if only the UTF-8/ASCII symbol choice differs,
+    else the first differing line of obs without SGR codes and digits"""
+    def norm(s):
+        for k, v in _SYMBOLS.items():
+            s = s.replace(k, v)
+        return s
+    if norm(exp) == norm(obs):
+        return "utf8-symbols"
+    a, b = exp.split("\n"), obs.split("\n")
+    i = 0
+    while i < len(a) and i < len(b) and a[i] == b[i]:
+        i += 1
+    line = b[i] if i < len(b) else ""
+    line = re.sub("\x1b\\[[0-9;]*m", "", line).strip()
+    if not line:
+        return "<empty>" if not obs.strip() else "<line missing>"
+    return re.sub("[0-9]+", "#", line)[:28]
 
 
 # ------------------------------------------------------------------------------------------------
@@ -137,7 +232,7 @@ LINES = {
     "raise-vvv": ("bad -vvv", True),
     "sub": ("top sub y", True),
     "raise-vvv-ascii": ("bad -vvv", False),
-    # spares: VERIF_SEED rotates exactly one of them into the alphabets
+    # spares: VERIF_SEED rotates exactly one of them into the full alphabet
     "valid-ansi": ("foo a --ansi", True),
     "help-top": ("help top", True),
     "top-h": ("top sub -h", True),
@@ -151,23 +246,6 @@ CORE_REDUCED = ["valid", "too-many", "help-len", "foo-h", "version", "len-surplu
 REDUCED_ROT = ["bad-option", "help-foo", "unknown", "sub", "raise-vvv-ascii", "help"]
 SPARES = ["valid-ansi", "help-top", "top-h", "len-h", "valid-quiet", "top"]
 MODES = ["default", "reused-args", "shared-parser"]
-REC = []
-
-
-def _handler(name, status=0, raises=False):
-    from clikit.handler.callback_handler import CallbackHandler
-
-    def cb(args, io):
-        REC.append([name, dict(args.arguments()), dict(args.options()), list(args.raw_args.tokens),
-                    [io.is_verbose(), io.is_very_verbose(), io.is_debug(), io.is_quiet(), io.is_interactive(),
-                     type(io.output.formatter).__name__, io.supports_utf8()]])
-        io.write_line("%s <b>out</b>" % name)
-        io.error_line("%s <b>err</b>" % name)
-        if raises:
-            raise RuntimeError("boom in %s" % name)
-        return status
-
-    return CallbackHandler(cb)
 
 
 def build_app(mode):
@@ -176,6 +254,7 @@ def build_app(mode):
     from clikit.api.args.format import Argument, Option
     from clikit.args.default_args_parser import DefaultArgsParser
     from clikit.config import DefaultApplicationConfig
+    from props._c17_fixtures import handler
 
     c = DefaultApplicationConfig("app", "1.2.3")
     c.set_catch_exceptions(True)
@@ -184,23 +263,23 @@ def build_app(mode):
         f.set_description("The foo command")
         f.add_argument("arg", Argument.OPTIONAL, "An argument")
         f.add_option("opt", "o", Option.NO_VALUE, "An option")
-        f.set_handler(_handler("foo"))
+        f.set_handler(handler("foo"))
     with c.command("len") as f:  # lenient: surplus arguments are accepted
         f.set_description("A lenient command")
         f.add_argument("arg", Argument.OPTIONAL, "An argument")
         f.add_option("opt", "o", Option.NO_VALUE, "An option")
         f.enable_lenient_args_parsing()
-        f.set_handler(_handler("len"))
+        f.set_handler(handler("len"))
     with c.command("top") as f:  # has a sub-command
         f.set_description("A command with a sub-command")
-        f.set_handler(_handler("top", 2))
+        f.set_handler(handler("top", 2))
         with f.sub_command("sub") as s:
             s.set_description("The sub-command")
             s.add_argument("x", Argument.OPTIONAL, "An argument")
-            s.set_handler(_handler("top sub", 3))
+            s.set_handler(handler("top sub", 3))
     with c.command("bad") as f:  # handler raises at any verbosity
         f.set_description("A command whose handler raises")
-        f.set_handler(_handler("bad", raises=True))
+        f.set_handler(handler("bad", raises=True))
     if mode == "shared-parser":
         p = DefaultArgsParser()
         for cc in c.command_configs:  # includes the built-in help command
@@ -215,6 +294,7 @@ def run_line(app, name, argobjs=None):
     from clikit.args import StringArgs
     from clikit.io.input_stream import StringInputStream
     from clikit.io.output_stream import BufferedOutputStream
+    from props._c17_fixtures import REC
 
     line, utf8 = LINES[name]
     if argobjs is None:
@@ -234,17 +314,20 @@ def run_line(app, name, argobjs=None):
     return [st, o.fetch(), e.fetch(), rec, list(args.tokens)]
 
 
+def app_state(mode):
+    return {"app": build_app(mode), "args": {} if mode == "reused-args" else None}
+
+
 def run_history(mode, hist):
     """fresh application, all lines of hist in order; returns the observation of the LAST run"""
-    app = build_app(mode)
-    argobjs = {} if mode == "reused-args" else None
+    st = app_state(mode)
     obs = None
     for name in hist:
-        obs = run_line(app, name, argobjs)
+        obs = run_line(st["app"], name, st["args"])
     return obs
 
 
-def diff_summary(exp, obs):
+def diff_aspects(exp, obs, detail=False):
     parts = []
     es, eo, ee, er, et = exp
     os_, oo, oe, orr, ot = obs
@@ -261,42 +344,28 @@ def diff_summary(exp, obs):
                 for field, i in (("arguments", 1), ("options", 2)):
                     if a[i] != b[i]:
                         keys = sorted(k for k in set(a[i]) | set(b[i]) if a[i].get(k, "<unset>") != b[i].get(k, "<unset>"))
-                        parts.append("%s[%s]" % (field, ",".join(keys)))
+                        parts.append("%s[%s]" % (field, ",".join(keys)) if detail else "handler-" + field)
                 if a[3] != b[3]:
-                    parts.append("raw-tokens")
+                    parts.append("handler-raw-tokens")
                 if a[4] != b[4]:
                     parts.append("io-seen-by-handler")
     if es != os_ and not isinstance(os_, str):
         parts.append("status %s->%s" % (es, os_))
     if eo != oo:
-        parts.append("stdout~" + textclass(oo))
+        parts.append("stdout~" + textclass(eo, oo))
     if ee != oe:
-        parts.append("stderr~" + textclass(oe))
+        parts.append("stderr~" + textclass(ee, oe))
     if et != ot and not parts:
         parts.append("tokens-after-run")
-    return ",".join(parts)
-
-
-def history_share(job):
-    """worker: job = (mode, expected{name: obs}, [histories]) -> [(hist, summary)], runs"""
-    mode, expected, hists = job
-    out = []
-    runs = 0
-    for h in hists:
-        obs = forked(run_history, mode, h)
-        runs += len(h)
-        exp = expected[h[-1]]
-        if obs != exp:
-            out.append((h, diff_summary(exp, obs) or "differs"))
-    return out, runs
+    return parts or ["differs"]
 
 
 def expected_for(mode, names):
-    """fresh application, fresh process, one line: the reference observation; computed twice (determinism probe)"""
+    """fresh application, fresh process, one line: the reference observation; computed twice (determinism probe =
+    the length-1 histories)"""
+    res = par.pmap(lambda n: (forked(run_history, mode, (n,)), forked(run_history, mode, (n,))), list(names))
     exp = {}
-    for n in names:
-        a = forked(run_history, mode, (n,))
-        b = forked(run_history, mode, (n,))
+    for n, (a, b) in zip(names, res):
         if a != b:
             raise RuntimeError("engine error: line %r is not deterministic on a fresh application" % n)
         exp[n] = a
@@ -312,47 +381,57 @@ def check_history_case(case):
     exp = forked(run_history, mode, (h[-1],))
     obs = forked(run_history, mode, h)
     if obs != exp:
-        return exp, obs, diff_summary(exp, obs) or "differs"
+        return exp, obs, diff_aspects(exp, obs, detail=True)
     return None
 
 
 def explore_histories(rep, tag, alphabet, depth, modes):
-    workers = common.ncpu()
     tot_hist = tot_runs = nontrivial = 0
     base_viol = {}
+    P = min(2, depth)
     for mode in modes:
         exp = expected_for(mode, alphabet)
         touching = {n for n in alphabet if exp[n][0] != 0 or "help" in n or n.endswith("-h")}
+
+        def step(state, h):
+            obs = run_line(state["app"], h[-1], state["args"])
+            if obs != exp[h[-1]]:
+                return {"h": list(h), "d": diff_aspects(exp[h[-1]], obs)}
+            return None
+
+        def job(prefix):
+            return tree_job(lambda: app_state(mode), prefix, alphabet, depth, step)
+
+        prefixes = list(itertools.product(alphabet, repeat=P))
         viol_map = {}
-        n_hist = 0
-        for k in range(1, depth + 1):
-            hs = list(itertools.product(alphabet, repeat=k))
-            n_hist += len(hs)
-            nontrivial += sum(1 for h in hs if any(x in touching for x in h[:-1]))
-            jobs = [(mode, exp, share) for share in par.chunks(hs, workers * 4)]
-            for vs, runs in par.pmap(history_share, jobs):
-                tot_runs += runs
-                for h, d in vs:
-                    viol_map[h] = d
+        for recs in par.pmap(job, prefixes):
+            for r in recs:
+                viol_map[tuple(r["h"])] = tuple(r["d"])
+        n = len(alphabet)
+        n_hist = nodes_below(n, depth)
         tot_hist += n_hist
+        tot_runs += 2 * n + len(prefixes) * (P + nodes_below(n, depth - P))
+        for k in range(2, depth + 1):
+            # histories of length k in which a help request or a failed run precedes the judged line
+            nontrivial += (n ** (k - 1) - (n - len(touching)) ** (k - 1)) * n
         if mode == "default":
             base_viol = viol_map
         mins = minimal(viol_map)
         for h in mins:
             d = viol_map[h]
-            mtag = "" if mode == "default" or base_viol.get(h) == d else mode + ":"
-            sig = "history:%s%s:%s" % (mtag, h[-1], d)
+            mtag = "" if mode == "default" or set(d) <= set(base_viol.get(h, ())) else mode + ":"
+            sig = "history:%s%s" % (mtag, ",".join(d))
             if sig in rep.violations:
                 continue
             case = history_case(mode, h)
             got = check_history_case(case)
             if got is None:
                 raise RuntimeError("engine error: violating history %r does not reproduce" % (h,))
-            e, o, _ = got
-            rep.violation(report.viol(sig, "after %s the line %r gives [%s] instead of what a fresh application gives" % (
-                " ; ".join(repr(LINES[n][0]) for n in h[:-1]) or "nothing", LINES[h[-1]][0], d), case, _brief(e), _brief(o)))
+            e, o, det = got
+            rep.violation(report.viol(sig, "after %s the line %r differs from a fresh application in [%s]" % (
+                " ; ".join(repr(LINES[x][0]) for x in h[:-1]) or "nothing", LINES[h[-1]][0], ", ".join(det)), case, _brief(e), _brief(o)))
         rep.part("histories/%s/%s" % (tag, mode), alphabet=list(alphabet), depth=depth, histories=n_hist,
-                 violating_histories=len(viol_map), minimal_violating=len(mins))
+                 violating_histories=len(viol_map), minimal_violating=[list(h) for h in mins][:40])
     return tot_hist, tot_runs, nontrivial
 
 
@@ -389,37 +468,6 @@ def make_io(kind):
     return io
 
 
-def _f_inner(n):
-    if n <= 0:
-        raise ValueError("inner failure with value %d" % (n + 42))
-    return _f_inner(n - 1)
-
-
-def _f_middle(n):
-    x = [1, 2, 3]  # a line with a number, a string and a keyword for the highlighter
-    return _f_inner(n) if x else "never"
-
-
-def _f_outer(n):
-    return _f_middle(n)
-
-
-def _caught(n):
-    try:
-        _f_outer(n)
-    except ValueError as e:
-        return e
-
-
-def _caught_via_clikit():
-    """a failure whose trace passes through a clikit frame (callback_handler.py), for ignore_files_in"""
-    from clikit.handler.callback_handler import CallbackHandler
-    try:
-        CallbackHandler(lambda args, io: _f_outer(1)).handle(None, None, None)
-    except ValueError as e:
-        return e
-
-
 TABLE_CONTENT = {
     "short": (["ISBN", "Title", "Author"], [["99921-58-10-7", "Divine Comedy", "Dante Alighieri"],
                                             ["9971-5-0210-0", "A Tale of Two Cities", "Charles Dickens"]]),
@@ -429,40 +477,63 @@ TABLE_CONTENT = {
     "tags": (["<b>Key</b>", "Value"], [["<c1>one</c1>", "two\nlines"], ["three", "<u>four</u>"]]),
 }
 STYLES = ["ascii", "solid", "borderless", "compact"]
+LONG_TEXT = ("Lorem ipsum dolor sit amet, <b>consetetur</b> sadipscing elitr, sed diam nonumy eirmod tempor invidunt ut "
+             "labore et dolore magna aliquyam erat")
+# name -> (group used in signatures, io kinds it is rendered on); builders are in build_component()
+FACTORIES = {}
+for _st in STYLES + ["default"]:
+    for _cn in sorted(TABLE_CONTENT):
+        FACTORIES["table/%s/%s" % (_st, _cn)] = ("Table/" + _st, IO_BASIC)
+FACTORIES.update({
+    "paragraph/short": ("Paragraph", IO_BASIC),
+    "paragraph/long": ("Paragraph", IO_BASIC),
+    "labeled/plain": ("LabeledParagraph", IO_BASIC),
+    "labeled/unaligned": ("LabeledParagraph", IO_BASIC),
+    "labeled/aligned": ("LabeledParagraph", IO_BASIC),
+    "emptyline": ("EmptyLine", ["plain", "ansi"]),
+    "nameversion/full": ("NameVersion", IO_BASIC),
+    "nameversion/bare": ("NameVersion", ["plain", "ansi"]),
+    "help/application": ("ApplicationHelp", IO_BASIC),
+    "help/command/foo": ("CommandHelp", IO_BASIC),
+    "help/command/len": ("CommandHelp", IO_BASIC),
+    "help/command/top": ("CommandHelp", IO_BASIC),
+    "help/command/help": ("CommandHelp", IO_BASIC),
+    "help/command/top sub": ("CommandHelp", IO_BASIC),
+    "trace/full": ("ExceptionTrace", IO_ALL),
+    "trace/recursive": ("ExceptionTrace", IO_ALL),
+    "trace/simple": ("ExceptionTrace", ["plain", "ansi", "ascii-debug"]),
+    "trace/ignoring": ("ExceptionTrace", IO_ALL),
+})
 
 
-def factories():
-    """name -> (group, builder() -> (object, render kwargs), io kinds)"""
+def build_component(name):
+    """-> (object with .render(io, **kw), kw); a NEW object on every call"""
     _taint()
+    from clikit.api.config.application_config import ApplicationConfig
+    from clikit.ui.alignment import LabelAlignment
     from clikit.ui.components import EmptyLine, ExceptionTrace, LabeledParagraph, NameVersion, Paragraph, Table
     from clikit.ui.help import ApplicationHelp, CommandHelp
     from clikit.ui.style import TableStyle
-    from clikit.ui.alignment import LabelAlignment
-    from clikit.api.config.application_config import ApplicationConfig
+    from props import _c17_fixtures as fx
 
-    F = {}
-
-    def table(style, content):
-        def b():
-            t = Table(getattr(TableStyle, style)() if style else None)
-            hdr, rows = TABLE_CONTENT[content]
-            if hdr:
-                t.set_header_row(list(hdr))
-            t.add_rows([list(r) for r in rows])
-            return t, {}
-        return b
-
-    for st in STYLES + [None]:
-        for cn in sorted(TABLE_CONTENT):
-            F["table/%s/%s" % (st or "default", cn)] = ("Table/%s" % (st or "default"), table(st, cn), IO_BASIC)
-    long_text = "Lorem ipsum dolor sit amet, <b>consetetur</b> sadipscing elitr, sed diam nonumy eirmod tempor invidunt ut labore et dolore magna aliquyam erat"
-    F["paragraph/short"] = ("Paragraph", lambda: (Paragraph("A <b>short</b> text"), {}), IO_BASIC)
-    F["paragraph/long"] = ("Paragraph", lambda: (Paragraph(long_text), {"indentation": 4}), IO_BASIC)
-    F["labeled/plain"] = ("LabeledParagraph", lambda: (LabeledParagraph("<c1>--opt</c1> (-o)", long_text), {}), IO_BASIC)
-    F["labeled/unaligned"] = ("LabeledParagraph", lambda: (LabeledParagraph("label", "text", 1, False), {"indentation": 2}), IO_BASIC)
-
-    def aligned():
-        p = LabeledParagraph("x", long_text)
+    parts = name.split("/")
+    if parts[0] == "table":
+        t = Table(None if parts[1] == "default" else getattr(TableStyle, parts[1])())
+        hdr, rows = TABLE_CONTENT[parts[2]]
+        if hdr:
+            t.set_header_row(list(hdr))
+        t.add_rows([list(r) for r in rows])
+        return t, {}
+    if name == "paragraph/short":
+        return Paragraph("A <b>short</b> text"), {}
+    if name == "paragraph/long":
+        return Paragraph(LONG_TEXT), {"indentation": 4}
+    if name == "labeled/plain":
+        return LabeledParagraph("<c1>--opt</c1> (-o)", LONG_TEXT), {}
+    if name == "labeled/unaligned":
+        return LabeledParagraph("label", "text", 1, False), {"indentation": 2}
+    if name == "labeled/aligned":
+        p = LabeledParagraph("x", LONG_TEXT)
         q = LabeledParagraph("a-longer-label", "other")
         al = LabelAlignment()
         al.add(p, 2)
@@ -474,147 +545,155 @@ def factories():
                 al.align(io, indentation)
                 p.render(io, 2 + indentation)
         return Aligned(), {}
-
-    F["labeled/aligned"] = ("LabeledParagraph", aligned, IO_BASIC)
-    F["emptyline"] = ("EmptyLine", lambda: (EmptyLine(), {}), ["plain", "ansi"])
-    F["nameversion/full"] = ("NameVersion", lambda: (NameVersion(ApplicationConfig("app", "1.2.3")), {}), IO_BASIC)
-    F["nameversion/bare"] = ("NameVersion", lambda: (NameVersion(ApplicationConfig()), {}), ["plain", "ansi"])
-    F["help/application"] = ("ApplicationHelp", lambda: (ApplicationHelp(build_app("default")), {}), IO_BASIC)
-    for cmd in ("foo", "len", "top", "help"):
-        F["help/command/" + cmd] = ("CommandHelp", (lambda cmd=cmd: (CommandHelp(build_app("default").get_command(cmd)), {})), IO_BASIC)
-    F["help/command/top sub"] = ("CommandHelp", lambda: (CommandHelp(build_app("default").get_command("top").get_sub_command("sub")), {}), IO_BASIC)
-    F["trace/full"] = ("ExceptionTrace", lambda: (ExceptionTrace(_caught(0)), {}), IO_ALL)
-    F["trace/recursive"] = ("ExceptionTrace", lambda: (ExceptionTrace(_caught(5)), {}), IO_ALL)
-    F["trace/simple"] = ("ExceptionTrace", lambda: (ExceptionTrace(_caught(0)), {"simple": True}), ["plain", "ansi", "ascii-debug"])
-    F["trace/ignoring"] = ("ExceptionTrace", lambda: (ExceptionTrace(_caught_via_clikit()).ignore_files_in(".*callback_handler.*"), {}), IO_ALL)
-    return F
-
-
-FACTORY_IOS = None
-
-
-def factory_table():
-    """name -> (group, io kinds) computed once in a child (building the table imports and runs clikit code)"""
-    global FACTORY_IOS
-    if FACTORY_IOS is None:
-        FACTORY_IOS = forked(lambda: {k: (v[0], v[2]) for k, v in factories().items()})
-    return FACTORY_IOS
+    if name == "emptyline":
+        return EmptyLine(), {}
+    if name == "nameversion/full":
+        return NameVersion(ApplicationConfig("app", "1.2.3")), {}
+    if name == "nameversion/bare":
+        return NameVersion(ApplicationConfig()), {}
+    if name == "help/application":
+        return ApplicationHelp(build_app("default")), {}
+    if name == "help/command/top sub":
+        return CommandHelp(build_app("default").get_command("top").get_sub_command("sub")), {}
+    if parts[:2] == ["help", "command"]:
+        return CommandHelp(build_app("default").get_command(parts[2])), {}
+    if name == "trace/full":
+        return ExceptionTrace(fx.caught(0)), {}
+    if name == "trace/recursive":
+        return ExceptionTrace(fx.caught(5)), {}
+    if name == "trace/simple":
+        return ExceptionTrace(fx.caught(0)), {"simple": True}
+    if name == "trace/ignoring":
+        return ExceptionTrace(fx.caught_via_clikit()).ignore_files_in(".*callback_handler.*"), {}
+    raise KeyError(name)
 
 
 def _render(obj, kw, io):
-    obj.render(io, **kw)
+    try:
+        obj.render(io, **kw)
+    except Exception as e:
+        return ["crash:" + report.exc_site(e), repr(e)[:200]]
     out = [io.fetch_output(), io.fetch_error()]
     io.clear_output()
     io.clear_error()
     return out
 
 
-def run_component(case):
-    """Executes one component scenario in this (child) process and returns the judged render.
-    case kinds:  seq  {factory, ios:[...]}          same object on a new IO of each kind in turn; judged = last
-                 same-io {factory, io}              one object twice on ONE io object; returns both renders
-                 pair {first, first_io, factory, io}  another object rendered first; judged = the second object
-    """
-    F = factories()
+def component_ref(key):
+    name, io = key
+    def fresh():
+        obj, kw = build_component(name)
+        return _render(obj, kw, make_io(io))
+    return forked(fresh)
+
+
+def run_component_case(case, refs=None):
+    """replay of one component case in a pristine child -> (reference, observed) or None"""
     kind = case["kind"]
     if kind == "seq":
-        obj, kw = F[case["factory"]][1]()
-        out = None
-        for k in case["ios"]:
-            out = _render(obj, kw, make_io(k))
-        return out
-    if kind == "same-io":
-        obj, kw = F[case["factory"]][1]()
-        io = make_io(case["io"])
-        a = _render(obj, kw, io)
-        b = _render(obj, kw, io)
-        return [a, b]
-    if kind == "pair":
-        o1, kw1 = F[case["first"]][1]()
-        _render(o1, kw1, make_io(case["first_io"]))
-        o2, kw2 = F[case["factory"]][1]()
-        return _render(o2, kw2, make_io(case["io"]))
-    raise ValueError(kind)
-
-
-def component_ref(fname, io):
-    return forked(run_component, {"kind": "seq", "factory": fname, "ios": [io]})
-
-
-def component_share(job):
-    refs, cases = job
-    out = []
-    for c in cases:
-        try:
-            got = forked(run_component, c)
-        except RuntimeError as e:  # the component raised in the child
-            got = ["crash", str(e).strip().split("\n")[-1]]
-        ref = refs[(c["factory"], c["ios"][-1] if c["kind"] == "seq" else c["io"])]
-        if c["kind"] == "same-io":
-            ok = got == [ref, ref]
-        else:
-            ok = got == ref
-        if not ok:
-            out.append((c, ref, got))
-    return out, len(cases)
-
-
-def check_component_case(case):
-    io = case["ios"][-1] if case["kind"] == "seq" else case["io"]
-    ref = component_ref(case["factory"], io)
-    try:
-        got = forked(run_component, case)
-    except RuntimeError as e:
-        got = ["crash", str(e).strip().split("\n")[-1]]
-    ok = got == ([ref, ref] if case["kind"] == "same-io" else ref)
-    return None if ok else (ref, got)
+        def go():
+            obj, kw = build_component(case["factory"])
+            out = None
+            for k in case["ios"]:
+                out = _render(obj, kw, make_io(k))
+            return out
+        ref = component_ref((case["factory"], case["ios"][-1]))
+    elif kind == "same-io":
+        def go():
+            obj, kw = build_component(case["factory"])
+            io = make_io(case["io"])
+            return [_render(obj, kw, io), _render(obj, kw, io)]
+        r = component_ref((case["factory"], case["io"]))
+        ref = [r, r]
+    else:
+        def go():
+            o1, kw1 = build_component(case["first"])
+            _render(o1, kw1, make_io(case["first_io"]))
+            o2, kw2 = build_component(case["factory"])
+            return _render(o2, kw2, make_io(case["io"]))
+        ref = component_ref((case["factory"], case["io"]))
+    got = forked(go)
+    return None if got == ref else (ref, got)
 
 
 def explore_components(rep, seq_depth, pair_ios):
-    FT = factory_table()
-    names = sorted(FT)
-    workers = common.ncpu()
-    refs = {}
-    for (f, io), r in zip([(f, io) for f in names for io in FT[f][1]],
-                          par.pmap(lambda x: component_ref(*x), [(f, io) for f in names for io in FT[f][1]])):
-        refs[(f, io)] = r
-    # determinism probe of the references themselves
-    for f in names:
-        if component_ref(f, FT[f][1][0]) != refs[(f, FT[f][1][0])]:
-            raise RuntimeError("engine error: fresh render of %s is not deterministic" % f)
-    cases = []
-    for f in names:
-        ios = FT[f][1]
-        for k in range(2, seq_depth + 1):
-            for s in itertools.product(ios, repeat=k):
-                cases.append({"kind": "seq", "factory": f, "ios": list(s)})
-        for io in ios:
-            cases.append({"kind": "same-io", "factory": f, "io": io})
-    n_seq = len(cases)
-    for f1 in names:
-        for f2 in names:
-            g1, g2 = FT[f1][0], FT[f2][0]
-            both_trace = g1 == "ExceptionTrace" and g2 == "ExceptionTrace"
-            for io1 in FT[f1][1]:
-                for io2 in FT[f2][1]:
-                    if both_trace or (io1 in pair_ios and io2 in pair_ios):
-                        cases.append({"kind": "pair", "first": f1, "first_io": io1, "factory": f2, "io": io2})
-    cases.sort(key=lambda c: (len(c.get("ios", [0, 0])), 0))  # stable: shorter sequences first
+    names = sorted(FACTORIES)
+    keys = [(f, io) for f in names for io in FACTORIES[f][1]]
+    refs = dict(zip(keys, par.pmap(component_ref, keys)))
+    probe = [(f, FACTORIES[f][1][0]) for f in names]
+    for k, r in zip(probe, par.pmap(component_ref, probe)):
+        if r != refs[k]:
+            raise RuntimeError("engine error: fresh render of %s is not deterministic" % (k,))
+
+    # (a) one object over every sequence of IO kinds, and twice on ONE io object ---------------------
+    def seq_job(f):
+        def step(state, h):
+            got = _render(state[0], state[1], make_io(h[-1]))
+            if got != refs[(f, h[-1])]:
+                return {"kind": "seq", "factory": f, "ios": list(h)}
+            return None
+
+        def twice(state, fd):
+            for io_kind in FACTORIES[f][1]:
+                pid = os.fork()
+                if pid == 0:
+                    code = 0
+                    try:
+                        io = make_io(io_kind)
+                        a, b = _render(state[0], state[1], io), _render(state[0], state[1], io)
+                        if not (a == b == refs[(f, io_kind)]):
+                            _emit(fd, {"kind": "same-io", "factory": f, "io": io_kind})
+                    except BaseException:
+                        code = 3
+                    finally:
+                        os._exit(code)
+                if os.waitpid(pid, 0)[1] != 0:
+                    raise RuntimeError("engine error in same-io case %s %s" % (f, io_kind))
+
+        return tree_job(lambda: build_component(f), (), FACTORIES[f][1], seq_depth, step, twice)
+
+    # (b) a second object after another component was rendered in the same process ----------------------
+    def pair_allowed(f1, io1, f2, io2):
+        both_trace = FACTORIES[f1][0] == "ExceptionTrace" and FACTORIES[f2][0] == "ExceptionTrace"
+        return both_trace or (io1 in pair_ios and io2 in pair_ios)
+
+    def pair_job(key1):
+        f1, io1 = key1
+        seconds = ["%s@%s" % k2 for k2 in keys if pair_allowed(f1, io1, k2[0], k2[1])]
+
+        def setup():
+            o1, kw1 = build_component(f1)
+            _render(o1, kw1, make_io(io1))
+            return None
+
+        def step(state, h):
+            f2, io2 = h[-1].split("@")
+            o2, kw2 = build_component(f2)
+            if _render(o2, kw2, make_io(io2)) != refs[(f2, io2)]:
+                return {"kind": "pair", "first": f1, "first_io": io1, "factory": f2, "io": io2}
+            return None
+
+        return (tree_job(setup, (), seconds, 1, step) if seconds else []), len(seconds)
+
     bad = []
-    jobs = [(refs, share) for share in par.chunks(cases, workers * 4)]
-    n = 0
-    for vs, cnt in par.pmap(component_share, jobs):
-        bad.extend(vs)
-        n += cnt
-    # minimal sequences per factory; one signature per (group, minimal io sequence)
+    n_seq = 0
+    for f, recs in zip(names, par.pmap(seq_job, names)):
+        bad.extend(recs)
+        n_seq += nodes_below(len(FACTORIES[f][1]), seq_depth) + len(FACTORIES[f][1])
+    firsts = [k for k in keys if k[1] in pair_ios or FACTORIES[k[0]][0] == "ExceptionTrace"]
+    n_pair = 0
+    for recs, cnt in par.pmap(pair_job, firsts):
+        bad.extend(recs)
+        n_pair += cnt
+
     seq_viol = {}
-    for c, ref, got in bad:
+    for c in bad:
         if c["kind"] == "seq":
-            seq_viol.setdefault(c["factory"], {})[tuple(c["ios"])] = "differs"
-    keep = []
+            seq_viol.setdefault(c["factory"], {})[tuple(c["ios"])] = ("differs",)
     seq_min = {f: set(minimal(vm)) for f, vm in seq_viol.items()}
-    for c, ref, got in bad:
-        g = FT[c["factory"]][0]
+    keep = []
+    for c in bad:
+        g = FACTORIES[c["factory"]][0]
         if c["kind"] == "seq":
             if tuple(c["ios"]) not in seq_min[c["factory"]]:
                 continue
@@ -624,18 +703,23 @@ def explore_components(rep, seq_depth, pair_ios):
             sig = "component-twice:%s:%s" % (g.split("/")[0], c["io"])
             what = "%s rendered twice on one %s IO: outputs differ from the fresh render" % (c["factory"], c["io"])
         else:
-            sig = "other-object:%s:after:%s" % (g, FT[c["first"]][0])
+            sig = "other-object:%s:after:%s" % (g, FACTORIES[c["first"]][0])
             if g == "ExceptionTrace":
                 sig += ":%s>%s" % (c["first_io"], c["io"])
             what = "%s on %s, after %s had been rendered on %s in the same process, differs from its render in a fresh process" % (
                 c["factory"], c["io"], c["first"], c["first_io"])
-        keep.append((len(json.dumps(c)), sig, what, c, ref, got))
-    for _, sig, what, c, ref, got in sorted(keep, key=lambda x: (x[0], x[1], json.dumps(x[3], sort_keys=True))):
-        rep.violation(report.viol(sig, what, dict(c, part="component"), _clip(ref), _clip(got)))
+        keep.append((len(json.dumps(c)), sig, what, c))
+    for _, sig, what, c in sorted(keep, key=lambda x: (x[0], x[1], json.dumps(x[3], sort_keys=True))):
+        if sig in rep.violations:
+            continue
+        got = run_component_case(c)
+        if got is None:
+            raise RuntimeError("engine error: violating component case %r does not reproduce" % (c,))
+        rep.violation(report.viol(sig, what, dict(c, part="component"), _clip(got[0]), _clip(got[1])))
     rep.part("components", factories=len(names), sequence_depth=seq_depth, sequence_and_twice_cases=n_seq,
-             pair_cases=len(cases) - n_seq, violating=len(bad))
-    nontriv = sum(1 for c in cases if c["kind"] != "seq" or len(set(c["ios"])) > 1)
-    return n, nontriv, cases
+             pair_cases=n_pair, pair_io_kinds=list(pair_ios), violating=len(bad))
+    nontriv = n_pair + sum(nodes_below(len(FACTORIES[f][1]), seq_depth) - len(FACTORIES[f][1]) * seq_depth for f in names)
+    return n_seq + n_pair, nontriv
 
 
 def _clip(x):
@@ -655,43 +739,39 @@ BATCHES = {  # name -> [(block depth, kind, label, text)]
 }
 
 
-def run_layout(seq):
+def new_layout():
     _taint()
-    from clikit.ui.components import LabeledParagraph, Paragraph
     from clikit.ui.layout import BlockLayout
+    return BlockLayout()
 
-    layout = BlockLayout()
-    out = None
-    for name in seq:
-        for depth, kind, label, text in BATCHES[name]:
-            el = Paragraph(text) if kind == "p" else LabeledParagraph(label, text)
-            if depth == 0:
+
+def layout_batch(layout, name):
+    from clikit.ui.components import LabeledParagraph, Paragraph
+    for depth, kind, label, text in BATCHES[name]:
+        el = Paragraph(text) if kind == "p" else LabeledParagraph(label, text)
+        if depth == 0:
+            layout.add(el)
+        elif depth == 1:
+            with layout.block():
                 layout.add(el)
-            elif depth == 1:
+        else:
+            with layout.block():
                 with layout.block():
                     layout.add(el)
-            else:
-                with layout.block():
-                    with layout.block():
-                        layout.add(el)
-        io = make_io("plain")
-        layout.render(io)
-        out = io.fetch_output()
+    io = make_io("plain")
+    layout.render(io)
+    return io.fetch_output()
+
+
+def run_layout(seq):
+    layout = new_layout()
+    out = None
+    for name in seq:
+        out = layout_batch(layout, name)
     return out
 
 
-def layout_share(seqs):
-    out = []
-    for s in seqs:
-        got = forked(run_layout, s)
-        ref = forked(run_layout, s[-1:])
-        if got != ref:
-            out.append((s, ref, got))
-    return out, len(seqs)
-
-
 def layout_diffclass(ref, got):
-    import re
     a, b = ref.split("\n"), got.split("\n")
     if [x.lstrip() for x in a] == [x.lstrip() for x in b]:
         return "indentation"
@@ -702,175 +782,172 @@ def layout_diffclass(ref, got):
 
 def explore_layout(rep, depth):
     names = sorted(BATCHES)
-    seqs = [s for k in range(2, depth + 1) for s in itertools.product(names, repeat=k)]
-    bad = []
-    n = 0
-    for vs, cnt in par.pmap(layout_share, par.chunks(seqs, common.ncpu() * 2)):
-        bad.extend(vs)
-        n += cnt
-    vm = {tuple(s): layout_diffclass(ref, got) for s, ref, got in bad}
-    mins = set(minimal(vm))
-    for s, ref, got in sorted(bad, key=lambda x: (len(x[0]), x[0])):
-        if tuple(s) in mins:
-            rep.violation(report.viol("layout-reuse:BlockLayout:" + vm[tuple(s)],
-                                      "a BlockLayout used again after render() lays out the batch %r differently from a fresh layout (earlier batches: %r)" % (s[-1], list(s[:-1])),
-                                      {"part": "layout", "batches": list(s)}, ref, got))
-    rep.part("layout", batches=names, depth=depth, sequences=len(seqs), violating=len(bad))
+    refs = {n: forked(run_layout, (n,)) for n in names}
+
+    def step(layout, h):
+        got = layout_batch(layout, h[-1])
+        if got != refs[h[-1]]:
+            return {"s": list(h), "d": [layout_diffclass(refs[h[-1]], got)]}
+        return None
+
+    vm = {}
+    for recs in par.pmap(lambda p: tree_job(new_layout, p, names, depth, step), [(n,) for n in names]):
+        for r in recs:
+            vm[tuple(r["s"])] = tuple(r["d"])
+    for s in minimal(vm):
+        sig = "layout-reuse:BlockLayout:" + ",".join(vm[s])
+        if sig in rep.violations:
+            continue
+        rep.violation(report.viol(sig, "a BlockLayout used again after render() lays out the batch %r differently from a fresh layout (earlier batches: %r)" % (s[-1], list(s[:-1])),
+                                  {"part": "layout", "batches": list(s)}, refs[s[-1]], forked(run_layout, s)))
+    n = nodes_below(len(names), depth)
+    rep.part("layout", batches=names, depth=depth, sequences=n, violating=len(vm))
     return n
 
 
 # ------------------------------------------------------------------------------------------------
-# part 3: table styles in fresh sub-processes
+# part 3: table styles
 # ------------------------------------------------------------------------------------------------
 CHILD = r'''
 import json, os, sys
 os.environ["COLUMNS"] = "80"
+sys.path.insert(0, sys.argv[2])
 sys.path.insert(0, sys.argv[1])
-steps = json.loads(sys.argv[2])
 import clikit
 assert os.path.realpath(os.path.dirname(clikit.__file__)) == os.path.realpath(os.path.join(sys.argv[1], "clikit")), clikit.__file__
-from clikit.api.formatter import Style
-from clikit.io import BufferedIO
-from clikit.ui.components.table import Table
-from clikit.ui.style.alignment import Alignment
-from clikit.ui.style.table_style import TableStyle
-styles, out = [], []
-for step in steps:
-    op, x = step[0], step[1]
-    if op == "build":
-        styles.append((x, getattr(TableStyle, x)()))
-    elif op == "custom-own":       # attributes of the TableStyle object itself
-        st = styles[x][1]
-        st.padding_char = "."
-        st.cell_format = "[{}]"
-        st.header_cell_format = "({})"
-        st.set_column_alignment(1, Alignment.RIGHT)
-        st.default_column_alignment = Alignment.CENTER
-        st.cell_style = Style().bold()
-    elif op == "custom-border":    # the border of that style object
-        b = styles[x][1].border_style
-        b.line_vc_char = "!"
-        b.line_vl_char = "!"
-        b.line_hc_char = "~"
-        b.line_ht_char = "~"
-        b.crossing_c_char = "#"
-        b.corner_tl_char = "*"
-    elif op == "render":
-        t = Table(styles[x][1])
-        t.set_header_row(["ISBN", "Title", "Author"])
-        t.add_rows([["99921-58-10-7", "Divine Comedy", "Dante Alighieri"], ["9971-5-0210-0", "A Tale of Two Cities", "Charles Dickens"]])
-        io = BufferedIO()
-        t.render(io)
-        out.append([x, styles[x][0], io.fetch_output()])
-    elif op == "render-default":   # Table() without an explicit style
-        t = Table()
-        t.set_header_row(["ISBN", "Title"])
-        t.add_rows([["99921-58-10-7", "Divine Comedy"]])
-        io = BufferedIO()
-        t.render(io)
-        out.append([-1, "default", io.fetch_output()])
-sys.stdout.write(json.dumps(out))
+from props._c17_fixtures import run_style_steps
+sys.stdout.write(json.dumps(run_style_steps(json.loads(sys.argv[3]))))
 '''
 
 
-def run_style_child(steps):
+def run_style_subprocess(steps):
+    """the scenario in a brand-new interpreter"""
     env = dict(os.environ, PYTHONHASHSEED="0", PYTHONDONTWRITEBYTECODE="1", COLUMNS="80")
-    r = subprocess.run([sys.executable, "-B", "-c", CHILD, common.SRC, json.dumps(steps)], capture_output=True, text=True, env=env)
+    r = subprocess.run([sys.executable, "-B", "-c", CHILD, common.SRC, common.VERIF, json.dumps(steps)],
+                       capture_output=True, text=True, env=env)
     if r.returncode != 0:
-        return ["crash", r.stderr.strip().split("\n")[-1][:300]]
+        return [[-2, "crash", r.stderr.strip().split("\n")[-1][:300]]]
     return json.loads(r.stdout)
 
 
+def run_style_forked(steps):
+    """the scenario in a forked child of a process that imported clikit but never built a style"""
+    def go():
+        _taint()
+        from props._c17_fixtures import run_style_steps
+        try:
+            return run_style_steps(steps)
+        except Exception as e:
+            return [[-2, "crash", "%s %r" % (report.exc_site(e), e)]]
+    return forked(go)
+
+
 def style_scenarios():
-    sc = []  # (kind, steps, label)
-    for k in range(2, 5):
+    """-> (fresh sub-process scenarios, forked scenarios); each (kind, steps, twin steps or None, label)"""
+    fresh, fk = [], []
+
+    def two_schedules(order):
+        k = len(order)
+        a = [["build", n] for n in order] + [["render", i] for i in range(k)]
+        b = []
+        for i, n in enumerate(order):
+            b += [["build", n], ["render", i]]
+        return [a, b + [["render", i] for i in range(k)]]
+
+    for order in itertools.permutations(STYLES, 4):
+        for steps in two_schedules(order):
+            fresh.append(("create", steps, None, list(order)))
+    for k in (2, 3):
         for order in itertools.permutations(STYLES, k):
-            builds = [["build", n] for n in order]
-            sc.append(("create", builds + [["render", i] for i in range(k)], list(order)))
-            inter = []
-            for i, n in enumerate(order):
-                inter += [["build", n], ["render", i]]
-            sc.append(("create", inter + [["render", i] for i in range(k)], list(order)))
+            for steps in two_schedules(order):
+                fk.append(("create", steps, None, list(order)))
+    twins = set()
     for cust in ("custom-own", "custom-border"):
         for c in STYLES:
             for order in itertools.permutations(STYLES, 4):  # customise first, then build the others (and a new one of the same kind)
-                steps = [["build", c], [cust, 0]] + [["build", n] for n in order] + [["render", i + 1] for i in range(4)] + [["render-default", 0]]
-                sc.append((cust + ":" + c, steps, [c + "*"] + list(order)))
-        for order in itertools.permutations(STYLES, 4):      # build all, then customise one of them
+                tail = [["build", n] for n in order] + [["render", i + 1] for i in range(4)] + [["render-default", 0]]
+                twin = [["build", c]] + tail
+                fk.append((cust + ":" + c, [["build", c], [cust, 0]] + tail, twin, [c + " customised"] + list(order)))
+                twins.add(json.dumps(twin))
+        for order in itertools.permutations(STYLES, 4):      # build all four, then customise one of them
             for j in range(4):
-                steps = [["build", n] for n in order] + [[cust, j]] + [["render", i] for i in range(4) if i != j] + [["render-default", 0]]
-                sc.append((cust + ":" + order[j], steps, list(order) + ["customise " + order[j]]))
-    return sc
+                head = [["build", n] for n in order]
+                tail = [["render", i] for i in range(4) if i != j] + [["render-default", 0]]
+                fk.append((cust + ":" + order[j], head + [[cust, j]] + tail, head + tail, list(order) + ["customise " + order[j]]))
+                twins.add(json.dumps(head + tail))
+    for t in sorted(twins):  # the un-customised twins are creation scenarios in their own right
+        fk.append(("create", json.loads(t), None, "twin"))
+    return fresh, fk
 
 
 def style_refs():
     refs = {}
     for n in STYLES:
-        a = run_style_child([["build", n], ["render", 0], ["render", 0]])
-        if a[0] == "crash" or a[0][2] != a[1][2]:
+        a = run_style_subprocess([["build", n], ["render", 0], ["render", 0]])
+        if a[0][1] == "crash" or a[0][2] != a[1][2]:
             raise RuntimeError("engine error / solo style %s unstable: %r" % (n, a))
+        if run_style_forked([["build", n], ["render", 0]])[0][2] != a[0][2]:
+            raise RuntimeError("engine error: forked child and fresh sub-process disagree on the solo %s table" % n)
         refs[n] = a[0][2]
-    d = run_style_child([["render-default", 0]])
-    refs["default"] = d[0][2]
+    refs["default"] = run_style_subprocess([["render-default", 0]])[0][2]
     return refs
 
 
-def style_share(job):
-    refs, scs = job
-    out = []
-    for kind, steps, label in scs:
-        got = run_style_child(steps)
-        if got and got[0] == "crash":
-            out.append((kind, steps, label, "crash", None, got[1]))
-            continue
+def judge_style(refs, sc, runner):
+    """-> (victim, expected, observed) or None"""
+    kind, steps, twin, label = sc
+    got = runner(steps)
+    if got and got[0][1] == "crash":
+        return ("crash", None, got[0][2])
+    if twin is None:
         for idx, name, text in got:
             if text != refs[name]:
-                out.append((kind, steps, label, name, refs[name], text))
-                break
-    return out, len(scs)
+                return (name, refs[name], text)
+        return None
+    base = runner(twin)  # same scenario without the customising step: isolates the effect of customising
+    for (idx, name, text), (_, _, btext) in zip(got, base):
+        if text != btext:
+            return (name, btext, text)
+    return None
 
 
 def explore_styles(rep):
     refs = style_refs()
-    scs = style_scenarios()
-    bad = []
-    n = 0
-    for vs, cnt in par.pmap(style_share, [(refs, s) for s in par.chunks(scs, common.ncpu() * 2)]):
-        bad.extend(vs)
-        n += cnt
-    for kind, steps, label, victim, ref, got in sorted(bad, key=lambda x: (len(x[1]), json.dumps(x[1]))):
+    fresh, fk = style_scenarios()
+    jobs = [(sc, True) for sc in fresh] + [(sc, False) for sc in fk]
+
+    def work(j):
+        sc, is_fresh = j
+        return judge_style(refs, sc, run_style_subprocess if is_fresh else run_style_forked)
+
+    bad = [(sc, is_fresh, r) for (sc, is_fresh), r in zip(jobs, par.pmap(work, jobs)) if r is not None]
+    for sc, is_fresh, (victim, ref, got) in sorted(bad, key=lambda x: (len(x[0][1]), json.dumps(x[0][1]))):
+        kind, steps, twin, label = sc
         if victim == "crash":
             sig = "style-crash:" + str(got)[:60]
         elif kind == "create":
             sig = "style-creation:%s" % victim
         else:
             sig = "style-%s->%s" % (kind, victim)
-        rep.violation(report.viol(sig, "a table with the %s style renders differently from a process in which only that style was built (scenario: %s)" % (victim, label),
-                                  {"part": "style", "steps": steps}, ref, got))
-    rep.part("styles", scenarios=len(scs), sub_processes=n + 9, violating=len(bad))
-    return n
-
-
-def check_style_case(case):
-    refs = style_refs()
-    got = run_style_child(case["steps"])
-    if got and got[0] == "crash":
-        return None, got
-    for idx, name, text in got:
-        if text != refs[name]:
-            return refs[name], text
-    return None
+        what = ("a table with the %s style renders differently from a process in which only that style was built" % victim if twin is None else
+                "a table with the %s style renders differently once another style object has been customised" % victim)
+        rep.violation(report.viol(sig, what + " (scenario: %s)" % (label,),
+                                  {"part": "style", "steps": steps, "twin": twin, "fresh_subprocess": is_fresh}, ref, got))
+    rep.part("styles", fresh_subprocess_scenarios=len(fresh), forked_scenarios=len(fk), violating=len(bad),
+             orders_of_four=24, schedules=2)
+    return len(jobs)
 
 
 # ------------------------------------------------------------------------------------------------
 def replay(case):
+    _preimport()
     part = case.get("part")
     if part == "history":
         r = check_history_case(case)
         if r:
-            return {"what": "history still differs: " + r[2], "expected": _brief(r[0]), "observed": _brief(r[1])}
+            return {"what": "history still differs in [%s]" % ", ".join(r[2]), "expected": _brief(r[0]), "observed": _brief(r[1])}
     elif part == "component":
-        r = check_component_case(case)
+        r = run_component_case(case)
         if r:
             return {"what": "component render still differs", "expected": _clip(r[0]), "observed": _clip(r[1])}
     elif part == "layout":
@@ -878,9 +955,10 @@ def replay(case):
         if got != ref:
             return {"what": "layout still differs", "expected": ref, "observed": got}
     elif part == "style":
-        r = check_style_case(case)
+        sc = ("replay", case["steps"], case.get("twin"), "replay")
+        r = judge_style(style_refs(), sc, run_style_subprocess)  # a brand-new interpreter is always a valid place to replay
         if r:
-            return {"what": "style scenario still differs", "expected": r[0], "observed": r[1]}
+            return {"what": "style scenario still differs (%s)" % r[0], "expected": r[1], "observed": r[2]}
     else:
         raise ValueError("unknown case %r" % (case,))
     return None
@@ -888,37 +966,39 @@ def replay(case):
 
 def main():
     rep = report.Report(PID, "model_checking")
+    _preimport()
     thorough = rep.tier == "thorough"
     spare = SPARES[rep.seed % len(SPARES)]
     full = CORE + [spare]
-    tot_h = tot_r = nontriv = 0
-    h, r, nt = explore_histories(rep, "full", full, 4 if thorough else 3, MODES)
-    tot_h, tot_r, nontriv = tot_h + h, tot_r + r, nontriv + nt
+    tot_h, tot_r, nontriv = explore_histories(rep, "full", full, 4 if thorough else 3, MODES)
     if thorough:
         red = CORE_REDUCED + [REDUCED_ROT[rep.seed % len(REDUCED_ROT)]]
         h, r, nt = explore_histories(rep, "reduced", red, 5, MODES)
         tot_h, tot_r, nontriv = tot_h + h, tot_r + r, nontriv + nt
         rep.set("rotated_reduced_line", red[-1])
-    n_comp, nt_comp, _ = explore_components(rep, 4 if thorough else 3, IO_BASIC if thorough else ["plain", "narrow"])
-    n_lay = explore_layout(rep, 4 if thorough else 3)
+    n_comp, nt_comp = explore_components(rep, 4 if thorough else 3, IO_BASIC if thorough else ["plain", "narrow"])
+    n_lay = explore_layout(rep, 5 if thorough else 4)
     n_sty = explore_styles(rep)
     rep.set("rotated_line", spare)
-    rep.set("states", tot_h)
-    rep.set("transitions", tot_r)
+    rep.set("states", tot_h + n_comp + n_lay)
+    rep.set("transitions", tot_r + n_comp + n_lay)
     rep.set("traces_validated_against_impl", tot_h + n_comp + n_lay + n_sty)
     rep.set("evaluations", tot_h + n_comp + n_lay + n_sty)
     rep.set("distinct_nontrivial", nontriv + nt_comp)
     rep.set("exhaustive", True)
-    rep.set("rule", "histories: every sequence of lines up to the depth given per part (no dedup), judged on the last run, each on a fresh "
-                    "application in a forked child; non-trivial = a help request or a failed run precedes the judged line. components: every "
-                    "sequence of IO kinds per component up to the depth, one IO twice, and every ordered pair of components; non-trivial = "
-                    "not the same IO kind repeated. styles: every ordered subset of the four predefined styles in two schedules plus "
-                    "customising one style before/after the others, each in a fresh python sub-process")
+    rep.set("rule", "histories: every sequence of lines up to the depth given per part (no dedup), each judged on its last run against a fresh "
+                    "application; non-trivial = a help request or a failed run precedes the judged line. components: every sequence of IO kinds "
+                    "per component up to the depth, one IO object twice, every ordered pair of components; non-trivial = pairs and sequences "
+                    "that do not repeat a single IO kind. styles: all 24 orders x 2 schedules in fresh python sub-processes; ordered subsets and "
+                    "customising one style before/after the others in forked children of a process that never built a style")
     rep.sample({"mode": "default", "history": ["help-len", "len-surplus"]})
     rep.sample({"mode": "reused-args", "history": ["help-foo", "help-foo"]})
+    rep.sample({"mode": "shared-parser", "history": ["version", "valid", "len-surplus"]})
     rep.sample({"kind": "seq", "factory": "trace/full", "ios": ["debug", "ascii-debug"]})
+    rep.sample({"kind": "pair", "first": "table/compact/short", "first_io": "plain", "factory": "table/borderless/wrap", "io": "narrow"})
     rep.sample({"style_steps": [["build", "borderless"], ["build", "compact"], ["render", 0], ["render", 1]]})
     rep.assume("a fresh application / fresh object in a freshly forked process that never ran clikit code is the reference")
     rep.assume("customising a style = assigning its public attributes, including those of its border_style")
     rep.assume("BlockLayout.render consumes its elements by design; only reuse after render is judged")
+    rep.assume("fork() copies the complete process state, so a forked child continues exactly the recorded history")
     return rep.finish()
